@@ -31,6 +31,9 @@ func init() {
 			{ID: "C06.g", Title: "LOCK-CAS", Template: "T5+T8", MinInst: 10,
 				Rule: "every lock backend's Replace/Create carries its precondition and a failed conditional write is an error (as C05.b, C05.g): at most one instance can extend a given checkpoint",
 				Run:  func(c *Ctx) { c05b(c); c05g(c) }},
+			{ID: "C06.i", Title: "CAS-FROM-LOADED", Template: "T6+T4", MinInst: 4,
+				Rule: "the value compared by the sequencer's CAS is the lock checkpoint the Log was loaded from, and the tree the Log extends is the one opened from that same lock checkpoint (as C01.e, C08.a): an instance whose tree and CAS handle come from different fetches can win the CAS with a stale tree",
+				Run:  func(c *Ctx) { c01e(c); c08a(c) }},
 			{ID: "C06.f", Title: "ONE-LOCK", Template: "T6", MinInst: 2,
 				Rule: "in cmd/sunlight every ctlog.Config and the witness Config receive the one lock backend variable, which is assigned only from the three constructors", Run: c06f},
 		},
